@@ -715,4 +715,5 @@ RULES += [
 ]
 
 # the text a driver emits for a number is num_to_str(current value, own format) on every history (no stale rendering)
-IMPORTS = [('C07', 'C07.META')]
+# a number text sent to a property is converted by the library's own parser with the element's format
+IMPORTS = [('C07', 'C07.META'), ('C06', 'C06.CONV')]
